@@ -239,7 +239,7 @@ func oracle(o *observation, margin, guard int64) []problem {
 		}
 	default:
 		if o.StrictCause {
-			ps = append(ps, problem{"oracle", "unexpected-close-error", fmt.Sprintf("the connection was closed at %d us with the error %q, which is neither of the two timeout errors (nobody but the deadline timers closes this connection)", o.Tau, strings.TrimPrefix(o.Cause, "other:"))})
+			ps = append(ps, problem{"oracle", "unexpected-close-error", fmt.Sprintf("the connection was closed at %d us with the error %q, instead of the corresponding timeout error nbio.ErrReadTimeout / nbio.ErrWriteTimeout (nobody but the deadline timers and the history's own Close closes this connection)", o.Tau, strings.TrimPrefix(o.Cause, "other:"))})
 		} else {
 			ps = append(ps, problem{"infra", "unexpected-close-cause", "close cause " + o.Cause})
 		}
